@@ -93,23 +93,302 @@ structure VEq (cn : ConnId) (k : Key) (v v' : View) : Prop where
   ls : v'.ls = [] ↔ v.ls = []
   obj : v'.obj = v.obj
   po : v'.po = v.po
-  hdl : ∀ id, hdlTok (.alias cn) id v'.psp = hdlTok (.alias cn) id v.psp
-  chan : ∀ cur, dV cn k.ob k.sg cur v' = dV cn k.ob k.sg cur v
+  hdl : ∀ id, v.po.map (·.cur) = some id → hdlTok (.alias cn) id v'.psp = hdlTok (.alias cn) id v.psp
+  chan : dV cn k.ob k.sg (v.po.map (·.cur)) v' = dV cn k.ob k.sg (v.po.map (·.cur)) v
   sr : MOp.sigRemoved k ∈ v'.psa ↔ MOp.sigRemoved k ∈ v.psa
-  pr : MOp.peerRemoved k.pc ∈ v'.psa ↔ MOp.peerRemoved k.pc ∈ v.psa
-  pp : MOp.popPeer k.pc ∈ v'.psa ↔ MOp.popPeer k.pc ∈ v.psa
-  hr : ∀ id, MOp.handleReply id true ∈ v'.psa ↔ MOp.handleReply id true ∈ v.psa
+  wp : (MOp.peerRemoved k.pc ∈ v'.psa ∧ MOp.popPeer k.pc ∉ v'.psa) ↔ (MOp.peerRemoved k.pc ∈ v.psa ∧ MOp.popPeer k.pc ∉ v.psa)
+  hr : ∀ id, v.po.map (·.cur) = some id → (MOp.handleReply id true ∈ v'.psa ↔ MOp.handleReply id true ∈ v.psa)
 
 theorem VEq.rfl' (cn : ConnId) (k : Key) (v : View) : VEq cn k v v :=
-  ⟨Iff.rfl, Iff.rfl, rfl, rfl, fun _ => rfl, fun _ => rfl, Iff.rfl, Iff.rfl, Iff.rfl, fun _ => Iff.rfl⟩
+  ⟨Iff.rfl, Iff.rfl, rfl, rfl, fun _ _ => rfl, rfl, Iff.rfl, Iff.rfl, fun _ _ => Iff.rfl⟩
 
-theorem tokV_congr {cn : ConnId} {k : Key} {v v' : View} (h : VEq cn k v v') (id : ReqId) :
+theorem tokV_congr {cn : ConnId} {k : Key} {v v' : View} (h : VEq cn k v v') (id : ReqId) (hc : v.po.map (·.cur) = some id) :
     tokV cn k.ob k.sg v' id = tokV cn k.ob k.sg v id := by
-  simp only [tokV, h.hdl, h.chan, h.hr]
+  have := h.chan; rw [hc] at this
+  simp only [tokV, h.hdl id hc, this, h.hr id hc]
 
 theorem absV_congr {cn : ConnId} {k : Key} {v v' : View} (h : VEq cn k v v') (rm : Rm) (f : Bool) :
     absV cn k v' rm f = absV cn k v rm f := by
   have hls : (v'.ls ≠ []) ↔ (v.ls ≠ []) := not_congr h.ls
-  simp only [absV, h.rs, hls, h.obj, h.po, h.chan, h.sr, h.pr, h.pp, tokV_congr h]
+  have htok : (match v.po.map (·.cur) with
+      | none => T.none
+      | some id => if f then T.hr false else tokV cn k.ob k.sg v' id) =
+      (match v.po.map (·.cur) with
+      | none => T.none
+      | some id => if f then T.hr false else tokV cn k.ob k.sg v id) := by
+    cases hc : v.po.map (·.cur) with
+    | none => rfl
+    | some id => simp only [tokV_congr h id hc]
+  simp only [absV, h.rs, hls, h.obj, h.po, h.chan, h.sr, h.wp]
+  exact AS.ext' rfl rfl rfl rfl rfl htok rfl rfl rfl
+
+theorem absV_tok_some {cn : ConnId} {k : Key} {v : View} {rm : Rm} {id : ReqId} (hc : v.po.map (·.cur) = some id) :
+    (absV cn k v rm false).tok = tokV cn k.ob k.sg v id := by
+  simp only [absV, hc, Bool.false_eq_true, if_false]
+
+theorem absV_D {cn : ConnId} {k : Key} {v : View} {rm : Rm} {f : Bool} :
+    (absV cn k v rm f).D = dV cn k.ob k.sg (v.po.map (·.cur)) v := rfl
+
+theorem tokV_hdl {cn : ConnId} {ob : Obj} {sg : Sg} {v : View} {id : ReqId} {t : T} (h : hdlTok (.alias cn) id v.psp = some t) :
+    tokV cn ob sg v id = t := by
+  simp only [tokV, h]
+
+/-- the handler hands the reply to the outstanding request to the event loop -/
+theorem absV_enq_rep {cn : ConnId} {k : Key} {v : View} {rm : Rm} {id : ReqId} {ok : Bool}
+    (hc : v.po.map (·.cur) = some id) :
+    absV cn k { v with psp := [], lq := v.lq ++ [.smSend (.alias cn) (.subReply id ok)] } rm false =
+      { absV cn k v rm false with tok := .inD, D := (absV cn k v rm false).D ++ [.Rep ok] } := by
+  have hD : dV cn k.ob k.sg (some id) { v with psp := [], lq := v.lq ++ [.smSend (.alias cn) (.subReply id ok)] } =
+      dV cn k.ob k.sg (some id) v ++ [.Rep ok] := by
+    simp [dV, relevCb, relev]
+  refine AS.ext' rfl rfl rfl rfl rfl ?_ ?_ rfl rfl
+  · rw [absV_tok_some (by exact hc)]
+    simp only [tokV, hdlTok, hD]
+    simp [DTok.isRep]
+  · simp only [absV_D]
+    rw [show (({ v with psp := [], lq := v.lq ++ [.smSend (.alias cn) (.subReply id ok)] } : View).po.map (·.cur)) = some id from hc]
+    exact hD
+
+/-- the tables of the publisher side change, the channel and the programs do not -/
+theorem absV_tables {cn : ConnId} {k : Key} {v : View} {rm rm' : Rm} {f : Bool} {rs' : List Peer} {obj' : ObjSt} :
+    absV cn k { v with rs := rs', obj := obj' } rm' f =
+      { absV cn k v rm f with R := decide (Peer.alias cn ∈ rs'), obj := obj', rm := rm' } := rfl
+
+/-- the remover thread hands the removal notice for this peer and signal to the event loop -/
+theorem absV_enq_N {cn : ConnId} {k : Key} {v : View} {rm rm' : Rm} {f : Bool} :
+    absV cn k { v with lq := v.lq ++ [.smSend (.alias cn) (.removed k.ob k.sg)] } rm' f =
+      { absV cn k v rm f with rm := rm', D := (absV cn k v rm f).D ++ [.N] } := by
+  have hD : ∀ cur, dV cn k.ob k.sg cur { v with lq := v.lq ++ [.smSend (.alias cn) (.removed k.ob k.sg)] } =
+      dV cn k.ob k.sg cur v ++ [.N] := by
+    intro cur; simp [dV, relevCb, relev]
+  refine AS.ext' rfl rfl rfl rfl rfl ?_ (hD _) rfl rfl
+  simp only [absV]
+  cases hc : v.po.map (·.cur) with
+  | none => rfl
+  | some id =>
+    simp only
+    cases f
+    · simp only [Bool.false_eq_true, if_false, tokV, hD, List.any_append, List.any_cons, List.any_nil, DTok.isRep, Bool.or_false]
+    · rfl
+
+/-- something the abstraction does not look at is appended to the publisher's event-loop queue -/
+theorem absV_enq_other {cn : ConnId} {k : Key} {v : View} {rm : Rm} {f : Bool} {cb : Cb}
+    (h : relevCb cn k.ob k.sg (v.po.map (·.cur)) cb = none) :
+    absV cn k { v with lq := v.lq ++ [cb] } rm f = absV cn k v rm f := by
+  refine absV_congr (v := v) (v' := { v with lq := v.lq ++ [cb] })
+    ⟨Iff.rfl, Iff.rfl, rfl, rfl, fun _ _ => rfl, ?_, Iff.rfl, Iff.rfl, fun _ _ => Iff.rfl⟩ rm f
+  simp [dV, h]
+
+/-- the subscriber's tables and socket program change; the other inputs and the observations of the socket program
+other than the cleanup flag do not -/
+theorem absV_aside {cn : ConnId} {k : Key} {v : View} {rm : Rm} {f : Bool} {ls' : List Rcv} {psa' : List MOp}
+    (hsr : MOp.sigRemoved k ∈ psa' ↔ MOp.sigRemoved k ∈ v.psa)
+    (hhr : ∀ id, v.po.map (·.cur) = some id → (MOp.handleReply id true ∈ psa' ↔ MOp.handleReply id true ∈ v.psa)) :
+    absV cn k { v with ls := ls', psa := psa' } rm f =
+      { absV cn k v rm f with A := decide (ls' ≠ []), wp := decide (MOp.peerRemoved k.pc ∈ psa' ∧ MOp.popPeer k.pc ∉ psa') } := by
+  refine AS.ext' rfl rfl rfl rfl rfl ?_ rfl ?_ rfl
+  · simp only [absV]
+    cases hc : v.po.map (·.cur) with
+    | none => rfl
+    | some id =>
+      simp only
+      cases f
+      · simp only [Bool.false_eq_true, if_false, tokV, dV]
+        by_cases h1 : MOp.handleReply id true ∈ v.psa
+        · have h2 := (hhr id hc).2 h1
+          simp only [h1, h2, if_true]
+        · have h2 := mt (hhr id hc).1 h1
+          simp only [h1, h2, if_false]
+      · rfl
+  · simp only [absV]
+    by_cases h1 : MOp.sigRemoved k ∈ v.psa
+    · simp only [h1, hsr.2 h1]
+    · simp only [h1, mt hsr.1 h1]
+
+/-- no reply to request `id` is in the channel -/
+def NoRep (cn : ConnId) (id : ReqId) (v : View) : Prop :=
+  (∀ ok, Msg.subReply id ok ∉ v.ib) ∧ (∀ ok, Cb.smSend (.alias cn) (.subReply id ok) ∉ v.lq)
+
+theorem relev_noRep {ob : Obj} {sg : Sg} {id : ReqId} {l : List Msg} (h : ∀ ok, Msg.subReply id ok ∉ l) :
+    l.filterMap (relev ob sg (some id)) = l.filterMap (relev ob sg none) := by
+  induction l with
+  | nil => rfl
+  | cons m l ih =>
+    have h1 : ∀ ok, Msg.subReply id ok ∉ l := fun ok hm => h ok (List.mem_cons_of_mem _ hm)
+    have hm : relev ob sg (some id) m = relev ob sg none m := by
+      cases m with
+      | subReply i ok =>
+        simp only [relev, Option.some.injEq, reduceCtorEq, if_false]
+        rw [if_neg]
+        intro e; subst e; exact h ok List.mem_cons_self
+      | _ => rfl
+    simp only [List.filterMap_cons, hm, ih h1]
+
+theorem relevCb_noRep {cn : ConnId} {ob : Obj} {sg : Sg} {id : ReqId} {l : List Cb}
+    (h : ∀ ok, Cb.smSend (.alias cn) (.subReply id ok) ∉ l) :
+    l.filterMap (relevCb cn ob sg (some id)) = l.filterMap (relevCb cn ob sg none) := by
+  induction l with
+  | nil => rfl
+  | cons cb l ih =>
+    have h1 : ∀ ok, Cb.smSend (.alias cn) (.subReply id ok) ∉ l := fun ok hm => h ok (List.mem_cons_of_mem _ hm)
+    have hm : relevCb cn ob sg (some id) cb = relevCb cn ob sg none cb := by
+      cases cb with
+      | smSend d m =>
+        simp only [relevCb]
+        split
+        · rename_i e; subst e
+          cases m with
+          | subReply i ok =>
+            simp only [relev, Option.some.injEq, reduceCtorEq, if_false]
+            rw [if_neg]
+            intro e; subst e; exact h ok List.mem_cons_self
+          | _ => rfl
+        · rfl
+      | disconnect n t => rfl
+    simp only [List.filterMap_cons, hm, ih h1]
+
+theorem dV_noRep {cn : ConnId} {ob : Obj} {sg : Sg} {id : ReqId} {v : View} (h : NoRep cn id v) :
+    dV cn ob sg (some id) v = dV cn ob sg none v := by
+  simp only [dV, relev_noRep h.1, relevCb_noRep h.2]
+
+theorem dV_none_noRep {cn : ConnId} {ob : Obj} {sg : Sg} {v : View} : (dV cn ob sg none v).any DTok.isRep = false := by
+  simp only [dV, List.any_append, Bool.or_eq_false_iff, List.any_eq_false, List.mem_filterMap]
+  constructor
+  · rintro t ⟨m, -, hm⟩
+    cases m <;> simp only [relev, reduceCtorEq, if_false] at hm <;> (try (cases hm; done))
+    split at hm <;> cases hm; simp [DTok.isRep]
+  · rintro t ⟨cb, -, hm⟩
+    cases cb with
+    | smSend d m =>
+      simp only [relevCb] at hm
+      split at hm
+      · cases m <;> simp only [relev, reduceCtorEq, if_false] at hm <;> (try (cases hm; done))
+        split at hm <;> cases hm; simp [DTok.isRep]
+      · cases hm
+    | disconnect n t => cases hm
+
+/-- a request that is neither with the handler nor answered is on its way, or its positive reply is about to be handled -/
+theorem tokV_client {cn : ConnId} {ob : Obj} {sg : Sg} {v : View} {id : ReqId}
+    (h1 : hdlTok (.alias cn) id v.psp = none) (h2 : NoRep cn id v) :
+    tokV cn ob sg v id = if MOp.handleReply id true ∈ v.psa then .hr true else .req := by
+  simp only [tokV, h1, dV_noRep h2, dV_none_noRep, Bool.false_eq_true, if_false]
+
+/-- the program of the subscriber's socket thread changes in a way the abstraction does not see -/
+theorem absV_psa_congr {cn : ConnId} {k : Key} {v : View} {rm : Rm} {f : Bool} {psa' : List MOp}
+    (hsr : MOp.sigRemoved k ∈ psa' ↔ MOp.sigRemoved k ∈ v.psa)
+    (hpr : MOp.peerRemoved k.pc ∈ psa' ↔ MOp.peerRemoved k.pc ∈ v.psa)
+    (hpp : MOp.popPeer k.pc ∈ psa' ↔ MOp.popPeer k.pc ∈ v.psa)
+    (hhr : ∀ id, v.po.map (·.cur) = some id → (MOp.handleReply id true ∈ psa' ↔ MOp.handleReply id true ∈ v.psa)) :
+    absV cn k { v with psa := psa' } rm f = absV cn k v rm f :=
+  absV_congr (v := v) (v' := { v with psa := psa' })
+    ⟨Iff.rfl, Iff.rfl, rfl, rfl, fun _ _ => rfl, rfl, hsr, and_congr hpr (not_congr hpp), hhr⟩ rm f
+
+/-- the tables of the subscriber for the key change -/
+theorem absV_retable {cn : ConnId} {k : Key} {v : View} {rm : Rm} {f f' : Bool} {ls' : List Rcv} {po' : Option PObj} {t' : T}
+    (hD : dV cn k.ob k.sg (po'.map (·.cur)) v = dV cn k.ob k.sg (v.po.map (·.cur)) v)
+    (ht : (match po'.map (·.cur) with
+      | none => T.none
+      | some id => if f' then T.hr false else tokV cn k.ob k.sg v id) = t') :
+    absV cn k { v with ls := ls', po := po' } rm f' =
+      { absV cn k v rm f with A := decide (ls' ≠ []), pend := pendP po', tok := t' } :=
+  AS.ext' rfl rfl rfl rfl rfl ht hD rfl rfl
+
+theorem hdlTok_not_hr {src : Peer} {id : ReqId} {l : List MOp} {t : T} (h : hdlTok src id l = some t) : t ≠ .hr true := by
+  intro e; subst e
+  unfold hdlTok at h
+  split at h <;> (try split at h) <;> simp at h
+
+/-- the subscriber's socket thread reads a removal notice for the signal -/
+theorem absV_readN {cn : ConnId} {k : Key} {v : View} {rm : Rm} {f : Bool} {ms : List Msg}
+    (hib : v.ib = .removed k.ob k.sg :: ms) (hpsa : v.psa = []) :
+    (absV cn k v rm f).D = .N :: (absV cn k { v with ib := ms, psa := [.sigRemoved k] } rm f).D ∧
+    absV cn k { v with ib := ms, psa := [.sigRemoved k] } rm f =
+      { absV cn k v rm f with sr := true, D := (absV cn k { v with ib := ms, psa := [.sigRemoved k] } rm f).D } ∧
+    idleSock (absV cn k v rm f) = true := by
+  have hD : ∀ cur, dV cn k.ob k.sg cur v = .N :: dV cn k.ob k.sg cur { v with ib := ms, psa := [.sigRemoved k] } := by
+    intro cur; simp [dV, hib, relev]
+  refine ⟨hD _, ?_, ?_⟩
+  · refine AS.ext' rfl rfl rfl rfl rfl ?_ rfl ?_ ?_
+    · simp only [absV]
+      cases hc : v.po.map (·.cur) with
+      | none => rfl
+      | some id =>
+        simp only
+        cases f
+        · simp only [Bool.false_eq_true, if_false, tokV, hD (some id), List.any_cons, DTok.isRep, Bool.false_or, hpsa]
+          simp
+        · rfl
+    · simp [absV]
+    · simp [absV, hpsa]
+  · simp only [idleSock, absV, hpsa]
+    cases hc : v.po.map (·.cur) with
+    | none => simp
+    | some id =>
+      cases f
+      · simp only [Bool.false_eq_true, if_false, tokV, hpsa]
+        cases hh : hdlTok (.alias cn) id v.psp with
+        | none => simp; split <;> simp
+        | some t =>
+          have := hdlTok_not_hr hh
+          simp [this]
+      · simp
+
+/-- the subscriber's socket thread reads the reply to the outstanding request -/
+theorem absV_readRep {cn : ConnId} {k : Key} {v : View} {rm : Rm} {ms : List Msg} {id : ReqId} {ok : Bool}
+    (hc : v.po.map (·.cur) = some id) (hib : v.ib = .subReply id ok :: ms) (hpsa : v.psa = [])
+    (hh : hdlTok (.alias cn) id v.psp = none) (hnr : NoRep cn id { v with ib := ms, psa := [.handleReply id ok] }) :
+    (absV cn k v rm false).D = .Rep ok :: (absV cn k { v with ib := ms, psa := [.handleReply id ok] } rm (!ok)).D ∧
+    idleSock (absV cn k v rm false) = true ∧
+    absV cn k { v with ib := ms, psa := [.handleReply id ok] } rm (!ok) =
+      { absV cn k v rm false with tok := .hr ok, D := (absV cn k { v with ib := ms, psa := [.handleReply id ok] } rm (!ok)).D } := by
+  have hD : dV cn k.ob k.sg (some id) v = .Rep ok :: dV cn k.ob k.sg (some id) { v with ib := ms, psa := [.handleReply id ok] } := by
+    simp [dV, hib, relev]
+  have htok : (absV cn k v rm false).tok = .inD := by
+    rw [absV_tok_some hc]
+    simp only [tokV, hh, hD, List.any_cons, DTok.isRep, Bool.true_or, if_true]
+  refine ⟨?_, ?_, ?_⟩
+  · simp only [absV_D]
+    rw [show (({ v with ib := ms, psa := [.handleReply id ok] } : View).po.map (·.cur)) = some id from hc]
+    exact hD
+  · simp only [idleSock, htok]
+    simp [absV, hpsa]
+  · refine AS.ext' rfl rfl rfl rfl rfl ?_ rfl ?_ ?_
+    · simp only [absV]
+      rw [show (({ v with ib := ms, psa := [.handleReply id ok] } : View).po.map (·.cur)) = some id from hc]
+      simp only
+      cases ok with
+      | false => simp
+      | true =>
+        simp only [Bool.not_true, Bool.false_eq_true, if_false]
+        rw [tokV_client (by exact hh) hnr]
+        simp
+    · simp [absV, hpsa]
+    · simp [absV, hpsa]
+
+/-- the abstract states a new connection starts in -/
+theorem mem_inits {x : AS} (hR : x.R = false) (hD : x.D = []) (hsr : x.sr = false)
+    (hrm : x.rm = .none ∨ ((x.rm = .pre ∨ x.rm = .post) ∧ x.obj = .reserved))
+    (hpt : (x.pend = .none ∧ x.tok = .none) ∨ (x.pend ≠ .none ∧ (x.tok = .req ∨ x.tok = .hr false)))
+    (hA : x.A = true → x.wp = true) : x ∈ inits := by
+  obtain ⟨R, A, obj, rm, pend, tok, D, sr, wp⟩ := x
+  simp only at hR hD hsr hrm hpt hA
+  subst hR hD hsr
+  simp only [inits, List.mem_flatMap, List.mem_cons, List.not_mem_nil, or_false]
+  refine ⟨obj, by cases obj <;> simp, rm, ?_, ?_⟩
+  · rcases hrm with rfl | ⟨rfl | rfl, -⟩ <;> simp
+  · have hc : (rm = Rm.none ∨ obj = ObjSt.reserved) := by
+      rcases hrm with h | ⟨-, h⟩
+      · exact Or.inl h
+      · exact Or.inr h
+    rw [if_pos hc]
+    simp only [List.mem_flatMap, List.mem_map, List.mem_cons, List.not_mem_nil, or_false]
+    refine ⟨(A, pend, tok), ?_, wp, ?_, rfl⟩
+    · rcases hpt with ⟨rfl, rfl⟩ | ⟨hp, rfl | rfl⟩
+      · cases A <;> simp
+      · cases A <;> cases pend <;> (try (rename_i b; cases b)) <;> simp_all
+      · cases A <;> cases pend <;> (try (rename_i b; cases b)) <;> simp_all
+    · cases A
+      · cases wp <;> simp
+      · simp [hA rfl]
 
 end QmiModel.PubSub
